@@ -136,6 +136,12 @@ class TokenManager(interfaces.RequestInterface, interfaces.TokenManager):
                 # whether the request was sent reliably or not.
                 m.request = request
 
+                # Responses that were not produced by a resource's render
+                # (eg. 4.04 / 4.05 / 5.00 built from exceptions) have not
+                # had the request's No-Response option filled in yet
+                if m.opt.no_response is None:
+                    m.opt.no_response = request.opt.no_response
+
                 self.token_interface.send_message(
                     m,
                     # No more interest from *that* remote; as it's the only
